@@ -111,7 +111,7 @@ PROPS = {
     },
     "C03": {
         "streams": ["ignore", "pack"],
-        "theorems": "C03_compile_correct (pattern->regexp translation = segment-wise glob specification, all well-formed patterns x all newline-free paths), C03_negations_after_exact/_over, C03_last_match_wins, C03_dominating_sound, C03_prune_eq_filter (all trees), C03_defaults; on the model of Pack itself: C03_pack_ships_exactly_the_unexcluded (for every file system holding at the source path a tree of regular files, directories, special files and links that stay inside, any depth and width, every option set, working directory and state of the shared flags, and whatever rule set parseIgnoreFile loads: Pack succeeds and writes exactly the entries of the tree whose own path is not excluded - for a directory neither 'd' nor 'd/' -, in order, also below an excluded directory; pruning and the negations-after flags play no part; Slug/PackIgnore.v), C03_loaded_rules_have_sound_flags, C03_keep_is_own_path, C03_nothing_filtered_without_ignore, C03_pack_instance",
+        "theorems": "C03_compile_correct (pattern->regexp translation = segment-wise glob specification, all well-formed patterns x all paths, any bytes), C03_negations_after_exact/_over, C03_last_match_wins, C03_dominating_sound, C03_prune_eq_filter (all trees), C03_defaults; on the model of Pack itself: C03_pack_ships_exactly_the_unexcluded (for every file system holding at the source path a tree of regular files, directories, special files and links that stay inside, any depth and width, every option set, working directory and state of the shared flags, and whatever rule set parseIgnoreFile loads: Pack succeeds and writes exactly the entries of the tree whose own path is not excluded - for a directory neither 'd' nor 'd/' -, in order, also below an excluded directory; pruning and the negations-after flags play no part; Slug/PackIgnore.v), C03_loaded_rules_have_sound_flags, C03_keep_is_own_path, C03_nothing_filtered_without_ignore, C03_pack_instance",
         "assumptions": [
             "modelled, not verified: Go's regexp on the expression shapes rule.compile emits (restated as Ignore/Rules.tmatch), text/scanner, bufio.ScanLines, strings.TrimSpace (ASCII); validated by the ignore stream through the verif hooks",
             "theorem 1 covers patterns of the documented language (each ** a whole segment, no character class, no backslash); character classes [a-z], backslash escapes and non-ASCII patterns are compared by the oracle/implementation only",
@@ -135,7 +135,7 @@ PROPS = {
     },
     "C17": {
         "streams": ["versions", "bundle"],
-        "theorems": "C17_selected_is_newest_allowed, C17_listing_order_irrelevant(_some), C17_exact, C17_complete_above_zero, C17_precedence_order (strict weak order), C17_complete_refuted (0.0.0 witness = known finding KF-C17-1): for all version lists and allowed sets",
+        "theorems": "C17_selected_is_newest_allowed, C17_listing_order_irrelevant(_some), C17_exact, C17_complete_above_zero, C17_precedence_order (strict weak order), C17_complete_refuted (0.0.0 witness = known finding KF-C17-1): for all version lists and allowed sets; at the level of the builder, for all worlds and histories: C17_builder_selects_like_the_world + C17_world_selection_is_newest_allowed (a registry lookup answers the registry's source address for the version select_version picks among the listed ones, whatever was cached before; none allowed = no answer = error diagnostic), C17_deprecation_is_the_registrys (every note in the bundle's deprecation table is the one the registry's listing attaches to exactly that version, build metadata included; Bundle/BuilderTrace.v)",
         "assumptions": [
             "modelled, not verified: github.com/apparentlymart/go-versions LessThan/GreaterThan/Same/Sort/NewestInSet (restated in Bundle/Versions.v, validated by the versions stream); versions.Set.Has enters as a truth table computed by the harness",
             "the builder-level selection, caching and deprecation capture are in Bundle/Builder.v (find_registry_source), compared with the real builder on scripted worlds (exact call and trace sequences, final registry tables)",
